@@ -1,11 +1,9 @@
-from props import _irb
-LEVEL = 'exploration'
+from props import _irp
+LEVEL = 'proof'
 PID = 'C14'
 
 def run(rep, tier, seed):
-    rep.explanation = 'bounded stand-in only (proof tier not yet wired)'
-    fails = _irb.run_histories(rep, PID, tier, seed)
-    _irb.report_failures(rep, PID, fails)
+    _irp.run(rep, PID, tier, seed, "frame obligations h' = h0 (structure with order, reference sets, data, name-table state, policy) at every exceptional exit of every public IR mutator under the stock listener (P); S-rules; B cross-check")
 
 def replay(path):
-    return _irb.replay(path, PID)
+    return _irp.replay(path, PID)
